@@ -91,6 +91,14 @@ func AllocBytes() uint64 {
 	return allocSample[0].Value.Uint64()
 }
 
+// AllocBytesExact is the exact cumulative allocation count (stops the world
+// briefly); use it when the bound is tight.
+func AllocBytesExact() uint64 {
+	var ms runtime.MemStats
+	runtime.ReadMemStats(&ms)
+	return ms.TotalAlloc
+}
+
 // Meter measures one call.
 type Meter struct {
 	cpu0   float64
@@ -98,8 +106,8 @@ type Meter struct {
 	t0     time.Time
 }
 
-func StartMeter() Meter { return Meter{cpu0: CPUSeconds(), alloc0: AllocBytes(), t0: time.Now()} }
+func StartMeter() Meter { return Meter{cpu0: CPUSeconds(), alloc0: AllocBytesExact(), t0: time.Now()} }
 
 func (m Meter) Stop() (cpu float64, alloc uint64, wall time.Duration) {
-	return CPUSeconds() - m.cpu0, AllocBytes() - m.alloc0, time.Since(m.t0)
+	return CPUSeconds() - m.cpu0, AllocBytesExact() - m.alloc0, time.Since(m.t0)
 }
